@@ -97,7 +97,11 @@ def main():
             ty, e = rng.choice([(T.integer, int_e(2)), (T.float, num_e(2)), (T.boolean, bool_e(2))])
             return ir.DeclarationAssignment(ir.Declaration(V(rng.choice(["z", "w"])), ty), e)
         if k == "block":
-            return ir.Block([stmt(d - 1) for _ in range(rng.randint(0, 3))], rng.choice([None, "c"]))
+            ss = [stmt(d - 1) for _ in range(rng.randint(0, 3))]
+            if ss and rng.random() < 0.3:  # a repeated statement
+                j = rng.randrange(len(ss))
+                ss.insert(j, ss[j])
+            return ir.Block(ss, rng.choice([None, "c"]))
         if k == "branch":
             return ir.Branch(bool_e(2), stmt(d - 1), stmt(d - 1))
         if k == "loop":
@@ -138,6 +142,33 @@ def main():
                     curated.append(ir.DeclarationAssignment(ir.Declaration(V("z"), T.boolean), e))
                     curated.append(ir.Branch(e, ir.Assignment(V("xi"), ir.IntegerLiteral(5)), ir.Assignment(V("yi"), ir.IntegerLiteral(6))))
                     curated.append(ir.Loop(e, ir.Block([])))
+    # constant comparisons (any folding rule must agree with the arithmetic)
+    for op in (ir.Equal, ir.NotEqual, ir.LessThan, ir.GreaterThan, ir.LessThanOrEqual, ir.GreaterThanOrEqual):
+        for (l, r) in ((0, 1), (1, 0), (1, 1), (2, 1), (-1, 0), (0, 0)):
+            c = op(ir.IntegerLiteral(l), ir.IntegerLiteral(r))
+            curated.append(ir.Assignment(V("xi"), ir.BooleanToInteger(c)))
+            curated.append(ir.Branch(c, ir.Assignment(V("xi"), ir.IntegerLiteral(5)), ir.Assignment(V("yi"), ir.IntegerLiteral(6))))
+        curated.append(ir.Assignment(V("yi"), ir.BooleanToInteger(op(ir.Multiply(V("xi"), ir.IntegerLiteral(0)), ir.IntegerLiteral(1)))))
+        curated.append(ir.Loop(ir.And(op(ir.IntegerLiteral(2), ir.IntegerLiteral(1)), ir.LessThan(V("xi"), ir.IntegerLiteral(3))),
+                               ir.Assignment(V("xi"), ir.Add(V("xi"), ir.IntegerLiteral(1)))))
+    # repeated / adjacent statements (a statement-level rule must not merge them)
+    incs = [ir.Assignment(V("xi"), ir.Add(V("xi"), ir.IntegerLiteral(1))),
+            ir.Assignment(V("xf"), ir.Multiply(V("xf"), ir.FloatLiteral(2.5))),
+            ir.Assignment(ir.ArrayIndex(V("q"), ir.IntegerLiteral(1)), ir.Add(ir.ArrayIndex(V("q"), ir.IntegerLiteral(1)), ir.IntegerLiteral(10))),
+            ir.Assignment(ir.ArrayIndex(V("p"), V("yi")), ir.Subtract(ir.ArrayIndex(V("p"), V("yi")), V("xi"))),
+            ir.Assignment(V("yi"), ir.Multiply(V("yi"), ir.Add(ir.IntegerLiteral(0), ir.IntegerLiteral(2))))]
+    for a in incs:
+        curated.append(ir.Block([a, a]))
+        curated.append(ir.Block([a, a, a], "c"))
+        for b in incs:
+            if a is not b:
+                curated.append(ir.Block([a, b, a]))
+        curated.append(ir.Block([a, ir.Block([]), a]))
+        curated.append(ir.Branch(V("b"), ir.Block([a, a]), a))
+    curated.append(ir.Block([ir.Assignment(V("xi"), V("yi")), ir.Assignment(V("yi"), V("xi")), ir.Assignment(V("xi"), V("yi"))]))
+    curated.append(ir.Block([ir.DeclarationAssignment(ir.Declaration(V("z"), T.integer), V("xi")),
+                             ir.DeclarationAssignment(ir.Declaration(V("z"), T.integer), ir.Add(V("z"), V("z"))),
+                             ir.Assignment(V("yi"), V("z"))]))
     curated.append(ir.Branch(V("b"), ir.Block([]), ir.Block([ir.Block([])])))
     curated.append(ir.Branch(ir.LessThan(ir.ArrayIndex(V("p"), V("xi")), ir.IntegerLiteral(0)), ir.Block([]), ir.Block([])))
     curated.append(ir.Assignment(V("yf"), ir.Multiply(ir.Multiply(V("xi"), ir.FloatLiteral(1.0)), V("yi"))))
